@@ -418,6 +418,11 @@ void pairs(vf::Ctx& c)
         auto const sh = rng.below(8);
         if (sh == 0) { y = b[rng.below(b.size())]; }
         if (sh == 1) { x = b[rng.below(b.size())]; }
+        if (sh == 4) { // a zero, an infinity, a NaN or the smallest subnormal on either side
+            unsigned const sg = static_cast<unsigned>(rng.below(2));
+            ld const sp[]     = {enc(sg, 0, 0), enc(sg, 0x7FFF, 0), qnan(sg), enc(sg, 0, 1)};
+            (rng.below(2) != 0 ? x : y) = sp[rng.below(4)];
+        }
         if (sh == 2 || sh == 3) { // nearly equal: same exponent, significand a few units apart (fdim / fmin / fmax decide on the last bits)
             auto const r = raw(x);
             if ((r.se & 0x7FFF) != 0x7FFF && (r.se & 0x7FFF) != 0) {
